@@ -65,6 +65,9 @@ Fixpoint tab_update (t : idtab) (n : name) (f : ident -> ident) : idtab :=
   | i :: t' => if name_eqb (i_name i) n then f i :: t' else i :: tab_update t' n f
   end.
 Definition tab_has (t : idtab) (n : name) : bool := match tab_find t n with Some _ => true | None => false end.
+(* usable in a rule: known, and not an alias of the end marker (a token declared with the code -1 gets no grammar symbol) *)
+Definition tab_usable (t : idtab) (n : name) : bool :=
+  match tab_find t n with Some i => negb (Z.eqb (i_value i) (-1)) | None => false end.
 Definition tab_names (t : idtab) : list name := map i_name t.
 
 Definition is_nil {A} (l : list A) : bool := match l with [] => true | _ => false end.
@@ -182,7 +185,7 @@ Fixpoint scan_rhs (tab : idtab) (pl : list (nat * assoc_kw * name)) (es : list r
   | [] => inr (syms, prec, act)
   | RAct c :: es' => scan_rhs tab pl es' syms prec c
   | RSym n :: es' =>
-    if tab_has tab n then
+    if tab_usable tab n then
       scan_rhs tab pl es' (syms ++ [n]) (match pre_map pl n with Some _ => Some n | None => prec end) act
     else inl (FUndefined n)
   end.
